@@ -459,6 +459,7 @@ fn exhaustive(ctx: &Ctx, rep: &mut Report) {
                     b[pos] = val;
                     let v = check_bytes(&b, &[1, 2, 3]);
                     evals += 1;
+                    crate::engine::PROGRESS.fetch_add(1, std::sync::atomic::Ordering::Relaxed);
                     if v.accepted {
                         accepted += 1;
                         *per_type.entry(type_name(ty)).or_insert(0) += 1;
@@ -477,6 +478,7 @@ fn exhaustive(ctx: &Ctx, rep: &mut Report) {
                     b[7] = fl as u8;
                     let v = check_bytes(&b, &[]);
                     evals += 1;
+                    crate::engine::PROGRESS.fetch_add(1, std::sync::atomic::Ordering::Relaxed);
                     if v.accepted {
                         accepted += 1;
                         if fl & 0xff < 4 && fl >> 8 < 4 {
@@ -498,6 +500,7 @@ fn exhaustive(ctx: &Ctx, rep: &mut Report) {
                         b[pos + 1] = val as u8;
                         let v = check_bytes(&b, &[9]);
                         evals += 1;
+                        crate::engine::PROGRESS.fetch_add(1, std::sync::atomic::Ordering::Relaxed);
                         if v.accepted {
                             accepted += 1;
                         }
